@@ -28,8 +28,10 @@ type Entry struct {
 	Seq   int
 	Mut   int // index among mutating calls (1-based), 0 for reads
 	Op    string
-	Path  string // resolved absolute path
+	Path  string // resolved path, relative to Root when below it ($ROOT/…)
 	Path2 string // rename target
+	Abs   string // resolved absolute path (not logged)
+	Abs2  string
 	N     int
 	Err   string
 	Task  string
@@ -66,6 +68,8 @@ type Disk struct {
 	Quiet    bool          // no yields / sleeps (set-up phases)
 	CrashedAt string
 	seq      int
+	// OnMutation runs after a mutating call took effect (before it returns to the caller).
+	OnMutation func(e Entry)
 }
 
 var cur *Disk
@@ -136,12 +140,14 @@ func (d *Disk) begin(op, path, path2 string, mut bool, size ...int) (idx int, ok
 	d.mu.Lock()
 	defer d.mu.Unlock()
 	d.seq++
-	e := Entry{Seq: d.seq, Op: op, Path: d.rel(Resolve(path)), Task: simrt.TaskID()}
+	e := Entry{Seq: d.seq, Op: op, Abs: Resolve(path), Task: simrt.TaskID()}
+	e.Path = d.rel(e.Abs)
 	if len(size) > 0 {
 		e.N = size[0]
 	}
 	if path2 != "" {
-		e.Path2 = d.rel(Resolve(path2))
+		e.Abs2 = Resolve(path2)
+		e.Path2 = d.rel(e.Abs2)
 	}
 	if s := simrt.Cur(); s != nil {
 		e.At = s.Elapsed()
@@ -178,11 +184,27 @@ func (d *Disk) begin(op, path, path2 string, mut bool, size ...int) (idx int, ok
 
 func (d *Disk) end(idx int, n int, err error) {
 	d.mu.Lock()
+	var en Entry
 	if idx >= 0 && idx < len(d.Log) {
 		d.Log[idx].N = n
 		if err != nil && d.Log[idx].Err == "" {
 			d.Log[idx].Err = err.Error()
 		}
+		en = d.Log[idx]
+	}
+	hook := d.OnMutation
+	d.mu.Unlock()
+	if hook != nil && en.Mut > 0 && err == nil {
+		hook(en)
+	}
+}
+
+// FreezeNow kills the "process" immediately (used when the network seam decides the instant of death).
+func (d *Disk) FreezeNow() {
+	d.mu.Lock()
+	d.Frozen = true
+	if d.CrashedAt == "" {
+		d.CrashedAt = "process death decided by the network seam"
 	}
 	d.mu.Unlock()
 }
